@@ -1,8 +1,8 @@
-HOOK_COMMITS = ['c1c434b']
+HOOK_COMMITS = ['c1c434b', '878b954']
 NOTES = ('All checks are driven by bin/check <ID> --tier quick|thorough; exit 0/1/2 as described in DESIGN.md 2.4. '
          'known_findings.json lists recorded defects and fixed ones.')
 _pending = 'check not built yet in this revision (see DESIGN.md); will be claimed when its specification and harness exist'
-for _p in ['C02','C03','C04','C05','C06','C07','C08','C10','C11','C13','C15','C18','C19','C20']:
+for _p in ['C02','C03','C04','C05','C06','C07','C08','C10','C11','C13','C15','C18','C19']:
     NA[_p] = _pending
 NA['C01'] = ('power balance needs numerical integration of the reported pattern over the sphere and a 1.5 % physical '
              'tolerance of the true kernel: numeric accuracy with no discrete content, nothing a TLA+ specification can decide (DESIGN.md section 5)')
@@ -59,3 +59,17 @@ check('C16', 'model_checking',
       'Trusted: TLC, report parser. Values compared at 1e-9 relative, printed coordinates at their printed precision. Step 0 is outside the '
       'enumerated domain.',
       'TLC enumeration with Grid.tla + exhaustive spec-to-code replay', 'DESIGN.md 4 C16')
+
+check('C20', 'fault_enumeration',
+      'spec/Cmdline.tla models main() as a staged pipeline (32 stages, same names as the Stage hook events); about 1980 fault sites (every '
+      'comma-separated field of every option of four base command lines replaced by empty / x / 0 / -1 / 1e300 / nan / inf / 1e-300 / 99, arity '
+      'changes, options given twice or omitted, contradictory and degenerate combinations) carry stage and outcome kind '
+      '(spec/cmdline_table.json). TLC enumerates every single fault exhaustively and pairs of faults on different option groups by simulation, '
+      'checks ExactlyOneOutcome / StopsAtFirst and dumps every scenario. Each scenario is run through the real main(); the verdict is taken '
+      'from the OBSERVED outcome: complete finite report (parsed by the report grammar, no nan/inf token) | exactly one diagnostic line with '
+      'return 23 | usage error; anything else (uncaught exception, NaN/inf printed, partial report, several lines with 23, no output) is a '
+      'violation unless it is a recorded known finding (matched by site pattern + exception type + innermost function).',
+      'Trusted: TLC, report parser, in-process execution of main with captured stdout/stderr. The site table is learnt from the code at build '
+      'time and committed; a predicted diagnostic that turns out to be a legitimate report (or vice versa) is not a violation because the '
+      'property allows either. Unwritable output paths (environment faults) are outside the domain.',
+      'TLC enumeration of fault scenarios on Cmdline.tla + replay of every scenario through main()', 'DESIGN.md 4 C20')
